@@ -198,9 +198,11 @@ class GroupMachine(Machine):
                 ops.append({"op": "byname", "name": "obs%d" % rng.randrange(7)})
             elif u < 0.90:
                 ops.append({"op": "addwrong", "how": rng.choice(["add", "setobs", "setobs-str"])})
-            elif u < 0.95:
+            elif u < 0.93:
                 ops.append({"op": "connect", "classes": [rng.choice(["Power", "Radiance", "SpectralPower", "SpectralRadiance"])
                                                          for _ in range(rng.randint(1, 3))]})
+            elif u < 0.95:
+                ops.append({"op": "pipelines", "kind": rng.choice(["ok", "ok", "short", "long"]), "n": rng.randint(1, 2)})
             else:
                 ops.append({"op": "observe"})
         return {"config": cfg, "ops": ops}
@@ -489,6 +491,32 @@ class GroupMachine(Machine):
             if c.is_cam:
                 return "noop"
             out = self._do_connect(c, op, env)
+        elif k == "pipelines":
+            if c.is_cam:
+                return "noop"
+            m = {"ok": n, "short": n - 1 if n >= 1 else n + 1, "long": n + 1}[op["kind"]]
+            val = [[CountPipe() for _ in range(op["n"])] for _ in range(m)]
+            try:
+                g.pipelines = val
+            except ValueError:
+                if op["kind"] == "ok":
+                    raise Violation("pipelines-assign", c.gname, "group.pipelines = list of %d lists raised ValueError for %d members" % (m, n))
+                env.fault_armed("reject-length")
+                env.fault_fired("reject-length")
+                out = "raised:ValueError"
+            except Exception as e:
+                raise Violation("pipelines-assign", c.gname, "group.pipelines assignment raised %s: %s" % (type(e).__name__, e))
+            else:
+                if op["kind"] != "ok":
+                    raise Violation("length-mismatch", "%s.pipelines" % c.gname, "%d pipeline lists accepted by a group of %d members" % (m, n))
+                for i, pl in zip(c.members, val):
+                    c.model[i]["pipelines"] = [id(p) for p in pl]
+                    for a in ("display_progress", "accumulate"):
+                        if a in c.model[i]:
+                            c.model[i][a] = self._canon(a, getattr(c.pool[i], a))
+                c.kept_pipes = val
+                c.mutations += 1
+            detail = op["kind"]
         elif k == "observe":
             out = self._do_observe(c, op, env)
         else:
